@@ -403,7 +403,7 @@ def parse_idlists(out, expected):
 
 def evals(exprs):
     """the closing lines of a case file: one truncated report per comparator"""
-    return "".join("Eval vm_compute in (report (%s)).\n" % e for e in exprs)
+    return "".join("Eval vm_compute in (report_ids (%s)).\n" % e for e in exprs)
 
 
 class BadList(list):
